@@ -31,6 +31,7 @@ class Model(LPModel):
         self.aux_bounds = []
         self.aux_ipc = []
         self.cvx_constr = []
+        self.ip_constr = []
 
     def st(self, constr):
         """
